@@ -16,7 +16,7 @@
      enters the model as (code points, width); the sixel decoder and the host Vaxis
      (clipboard, background query) are outside the model (vt.vx is nil until the first
      Draw, which is the state the hook constructs).
-   - Go int is 64 bit.  Parameters are clamped to [0, 65535] by ps(), so the only
+   - Go int is 64 bit.  ps() clamps a CSI parameter to [0, 65535], so the only
      arithmetic that can wrap is the [p - 1] of cup/decstbm, modelled with [i64]; the
      model assumes screen sizes far below 2^62. *)
 From Vx Require Import base.Prelude base.ListX model.Colour model.Sgr.
